@@ -50,7 +50,7 @@ Definition dataset_rules_b (s : bytes) : bool :=
 (* The documented rules for a tag name (tag_ref.go): anywhere-in-the-name rules. *)
 Definition tag_rules_b (s : bytes) : bool :=
   negb (existsb tag_forbidden_byte s)
-  && negb (existsb (fun c => is_suffix s_lock c) (split_on c_slash s))   (* no component ends with ".lock" *)
+  && negb (is_suffix s_lock s) && negb (has_infix (s_lock ++ [c_slash]) s)   (* does not end with .lock and contains no .lock/ *)
   && negb (existsb (fun c => beq_bytes c []) (split_on c_slash s))        (* no empty component *)
   && negb (beq_bytes s s_HEAD) && negb (beq_bytes s s_dash)
   && negb (looks_like_hash s)
